@@ -29,6 +29,10 @@ func init() {
 		d := s2.CellUnionFromDifference(x, y)
 		return []string{ids(u), ids(n), ids(d), bs(x.Contains(y)), bs(x.Intersects(y))}
 	}
+	replayers["cuunion"] = func(a []string) []string {
+		x := s2.CellUnion(pIDs(a[0]))
+		return []string{ids(s2.CellUnionFromUnion(append(s2.CellUnion(nil), x...))), ids(s2.CellUnionFromUnion(append(s2.CellUnion(nil), x...), s2.CellUnion{}))}
+	}
 	replayers["cucont"] = func(a []string) []string {
 		x := s2.CellUnion(pIDs(a[0]))
 		y := s2.CellUnion(pIDs(a[1]))
@@ -242,6 +246,10 @@ func genC11(g *G) {
 		}
 		g.emit("cuvalid", ids(x))
 		g.emit("cubin", ids(x), ids(y))
+		if r.Intn(4) == 0 {
+			// the union of ONE raw (unsorted, overlapping, mergeable) operand, alone and with an empty union (seeded change C11_7)
+			g.emit("cuunion", ids(g.randUnionRaw()))
+		}
 		if len(x) > 0 && r.Intn(3) == 0 {
 			// Contains with a RAW argument: cells of x, their children and descendants, each possibly several
 			// times, unsorted (the argument is only iterated over; duplicates and overlaps are legal there).  The
